@@ -3,6 +3,7 @@ CONSTANT Kernels <- K2
 CONSTANT NWs = {1, 2}
 CONSTANT Timeouts = {TRUE}
 CONSTANT TickEnabled = TRUE
+CONSTANT ReduceIdle = FALSE
 CONSTANT DeadlineTestFirst = TRUE
 SPECIFICATION Spec
 INVARIANT WarnIffCut
